@@ -160,12 +160,16 @@ func checkC19(r *Run) {
 		}
 		// delegation
 		del := CallsIn(f, "crypto/keys.Keybase."+m)
+		if len(del) == 0 {
+			// the constructor may hand out the concrete type: the same method, called directly
+			del = CallsIn(f, "(crypto/keys.dbKeybase)."+m)
+		}
 		if len(del) != 1 {
 			r.Viol("C19-R4", "lazy."+m+"/delegates", P.Pos(f.Pos()), "lazyKeybase."+m+" does not delegate to the db keybase's "+m)
 			continue
 		}
 		t := P.callTerm(del[0])
-		ok := strings.HasPrefix(argTerm(t, 0).String(), "crypto/keys.newDbKeybase(types.NewLevelDB(")
+		ok := strings.HasPrefix(strings.TrimPrefix(argTerm(t, 0).String(), "*"), "crypto/keys.newDbKeybase(types.NewLevelDB(")
 		for i, p := range f.Params[1:] {
 			if argTerm(t, i+1).String() != "param:"+p.Name() {
 				ok = false
